@@ -232,6 +232,54 @@ unsafe fn vt_drop(p: *const ()) {
 static VTABLE: RawWakerVTable = RawWakerVTable::new(vt_clone, vt_wake, vt_wake_by_ref, vt_drop);
 
 pub fn make_waker(w: i64, k: i64, on_wake: Option<fn(i64, i64)>) -> Waker {
+    if SHARED_DATA.load(std::sync::atomic::Ordering::Relaxed) && (0..8).contains(&k) {
+        return make_shared_waker(w, k, on_wake);
+    }
     let a = Arc::new(WakerData { w, k, on_wake });
     unsafe { Waker::from_raw(RawWaker::new(Arc::into_raw(a) as *const (), &VTABLE)) }
+}
+
+// ---- wakers that share their DATA POINTER across the polls of one wait and differ in their VTABLE only (an index-style or
+// data-less waker of a hand-written executor): `will_wake` between two of them is false, a comparison of data pointers is not.
+// The poll number k lives in the vtable (one monomorphised set of functions per k), the wait id in the shared, leaked data.
+
+/// H_RESET_WAKERS=shared switches every driver to these wakers.
+pub static SHARED_DATA: std::sync::atomic::AtomicBool = std::sync::atomic::AtomicBool::new(false);
+
+struct WaitData {
+    w: i64,
+    on_wake: Option<fn(i64, i64)>,
+}
+
+thread_local! {
+    static WAITS: std::cell::RefCell<std::collections::HashMap<i64, &'static WaitData>> = std::cell::RefCell::new(std::collections::HashMap::new());
+}
+
+fn shared_record<const K: i64>(p: *const ()) {
+    // SAFETY: p is a leaked WaitData
+    let d = unsafe { &*(p as *const WaitData) };
+    record_wake(&WakerData { w: d.w, k: K, on_wake: d.on_wake });
+}
+unsafe fn sh_clone<const K: i64>(p: *const ()) -> RawWaker {
+    RawWaker::new(p, shared_vtable(K))
+}
+unsafe fn sh_wake<const K: i64>(p: *const ()) {
+    shared_record::<K>(p);
+}
+unsafe fn sh_drop(_p: *const ()) {}
+
+macro_rules! sh_vt {
+    ($k:literal) => {
+        RawWakerVTable::new(sh_clone::<$k>, sh_wake::<$k>, sh_wake::<$k>, sh_drop)
+    };
+}
+static SH_VTABLES: [RawWakerVTable; 8] = [sh_vt!(0), sh_vt!(1), sh_vt!(2), sh_vt!(3), sh_vt!(4), sh_vt!(5), sh_vt!(6), sh_vt!(7)];
+fn shared_vtable(k: i64) -> &'static RawWakerVTable {
+    &SH_VTABLES[k as usize]
+}
+
+fn make_shared_waker(w: i64, k: i64, on_wake: Option<fn(i64, i64)>) -> Waker {
+    let d: &'static WaitData = WAITS.with(|m| *m.borrow_mut().entry(w).or_insert_with(|| Box::leak(Box::new(WaitData { w, on_wake }))));
+    // SAFETY: leaked data, vtable functions never free it
+    unsafe { Waker::from_raw(RawWaker::new(std::ptr::from_ref(d).cast(), shared_vtable(k))) }
 }
